@@ -9,6 +9,7 @@ mod c02;
 mod c03;
 mod c04;
 mod c05;
+mod c06;
 mod driver;
 mod respparse;
 mod scenario;
@@ -58,6 +59,7 @@ impl explore::Scenario for Job {
             "C03" => c03::check(&self.sc, &ex, &a),
             "C04" => c04::check(&self.sc, &ex, &a),
             "C05" => c05::check(&self.sc, &ex, &a),
+            "C06" => c06::check(&self.sc, &ex, &a),
             _ => vec![],
         };
         if ex.horizon_hit {
@@ -69,6 +71,7 @@ impl explore::Scenario for Job {
             "C03" => c03::nontrivial(&ex, &a),
             "C04" => c04::nontrivial(&ex, &a),
             "C05" => c05::nontrivial(&ex, &a),
+            "C06" => c06::nontrivial(&ex, &a),
             _ => false,
         };
         let sample = if ch.prefix_len() == 0 {
@@ -157,6 +160,13 @@ fn main() {
             (s, b, "exploration",
              "scenario = a peer that never stops (1 MiB head without terminator, endless header lines, 2-8 MiB Content-Length and chunked bodies in 1-byte and 64 KiB chunks, 5000 pipelined requests) x consumer (handler never reads / reads one chunk per release / reads in another task / never completes) and huge response bodies (1 B / 4 KiB / 1 MiB chunks) x socket (accepts nothing, stalls after 5000 bytes, accepts) x h1_write_buffer_size in {1, 1024, 32768, 1 MiB}; every execution with <= d deviating socket/handler answers; gauges read-ahead (socket bytes taken - stream offset handed to the application) and write-behind (body bytes pulled - bytes accepted by the socket) are measured at every step; non-trivial = the peer offered more than the read-ahead bound or the body was pulled ahead of the socket",
              vec!["bounds are constants fixed in the harness and derived from the code's buffer constants (R_IN = 600 000; write: h1_write_buffer_size + largest chunk + 64)", "heap usage is not measured; the gauges are black-box byte counters", "heavy scenarios are explored at a lower deviation bound (see per-level counts)"])
+        }
+        "C06" => {
+            let s = c06::scenarios(&tier);
+            let b = s.iter().map(|x| c06::bound(x, &tier)).collect();
+            (s, b, "exploration",
+             "scenario = timer configuration (request timeout 0/1 s, keep-alive Disabled/2 s/Os, disconnect timeout 0/1 s, signal absent/present) x timed peer script on a 250 ms virtual-time grid (rest of the first head arriving before/at/after the deadline or never; second request arriving around the keep-alive deadline or never; sockets whose shutdown never completes after every way of entering shutdown; graceful-shutdown signal offered at every event boundary); every execution with <= d non-default answers (event order inside an instant, socket answers, signal position) on the real h1::Dispatcher under tokio's paused clock; non-trivial = virtual time advanced",
+             vec!["tolerance TAU = 750 ms (one 500 ms date-service tick + one 250 ms grid step)", "'closed' = first poll_shutdown call or completion of the connection future", "tokio's paused clock and timer wheel are executed, not explored"])
         }
         other => {
             eprintln!("MACHINERY: h1x does not serve {other}");
